@@ -731,3 +731,136 @@ func isZeroValueConst(k *ssa.Const) bool {
 	}
 	return false
 }
+
+// ---- R8: a decoded value whose zero form cannot be used is checked on the decoded result
+//
+// yaml.v3 does not call UnmarshalYAML for a null node (nor for an alias to one, nor for a null that arrives through a
+// merged map): the zero value stays in the decoded structure. A type that decodes itself and carries a function in an
+// unexported field — which only its UnmarshalYAML can fill — is unusable in that zero form (calling the nil function
+// crashes the pipeline on the first record). So the verification tree (VerifyConfig / verify and what they call) must
+// compare that field with nil on values taken from the decoded configuration, and the nil edge must not report success.
+// A check on the YAML syntax tree does not count: what the decoder leaves behind is decided by anchors and merges too.
+func init() {
+	register("C16", "C16.R8", ruleC16R8)
+}
+
+func ruleC16R8(c *Ctx) {
+	// the verification tree
+	var roots []*ssa.Function
+	for _, f := range c.P.universe {
+		if f.Signature.Recv() != nil && (f.Name() == "VerifyConfig" || f.Name() == "verify") && f.Blocks != nil {
+			roots = append(roots, f)
+		}
+	}
+	tree := map[*ssa.Function]bool{}
+	var grow func(f *ssa.Function, d int)
+	grow = func(f *ssa.Function, d int) {
+		if tree[f] || d > 3 || f.Blocks == nil {
+			return
+		}
+		tree[f] = true
+		for _, s := range callsIn(f) {
+			if g := s.Common().StaticCallee(); g != nil && c.P.inUni[g] {
+				grow(g, d+1)
+			}
+		}
+		for _, an := range f.AnonFuncs {
+			grow(an, d)
+		}
+	}
+	for _, f := range roots {
+		grow(f, 0)
+	}
+	nTypes := 0
+	for _, p := range c.P.pkgs {
+		if !strings.HasPrefix(p.PkgPath, modPath) || nonUniversePkgs[p.PkgPath] {
+			continue
+		}
+		scope := p.Types.Scope()
+		for _, n := range scope.Names() {
+			tn, ok := scope.Lookup(n).(*types.TypeName)
+			if !ok || tn.IsAlias() {
+				continue
+			}
+			named, ok := tn.Type().(*types.Named)
+			if !ok || named.TypeParams().Len() > 0 {
+				continue
+			}
+			st, ok := named.Underlying().(*types.Struct)
+			if !ok {
+				continue
+			}
+			var um *ssa.Function
+			ms := c.P.prog.MethodSets.MethodSet(types.NewPointer(named))
+			for i := 0; i < ms.Len(); i++ {
+				if ms.At(i).Obj().Name() == "UnmarshalYAML" {
+					um = c.P.prog.MethodValue(ms.At(i))
+				}
+			}
+			if um == nil {
+				continue
+			}
+			for i := 0; i < st.NumFields(); i++ {
+				fld := st.Field(i)
+				if _, isFn := fld.Type().Underlying().(*types.Signature); !isFn || fld.Exported() {
+					continue
+				}
+				nTypes++
+				// a nil comparison of this field in the verification tree whose nil edge cannot report success
+				var at ssa.Instruction
+				var where *ssa.Function
+				found := false
+				for f := range tree {
+					eachInstr(f, func(in ssa.Instruction) {
+						bo, ok := in.(*ssa.BinOp)
+						if !ok || found {
+							return
+						}
+						em, ok := asEmptiness(bo)
+						if !ok {
+							return
+						}
+						isFld := func(v ssa.Value) bool {
+							switch x := strip(v).(type) {
+							case *ssa.Field:
+								return types.Identical(x.X.Type(), named) && x.Field == i
+							case *ssa.UnOp:
+								if fa, ok := x.X.(*ssa.FieldAddr); ok {
+									if pt, ok := fa.X.Type().Underlying().(*types.Pointer); ok {
+										return types.Identical(pt.Elem(), named) && fa.Field == i
+									}
+								}
+							}
+							return false
+						}
+						if !isFld(bo.X) && !isFld(bo.Y) {
+							return
+						}
+						good := true
+						for b, si := range boolEdges(bo, em.EmptyOnTrue) {
+							q := &PathQ{P: c.P}
+							if hit, _ := q.Reach(succPoint(b, si), func(x ssa.Instruction) bool {
+								r, ok := x.(*ssa.Return)
+								return ok && returnsSuccess(f, r)
+							}); hit != nil {
+								good = false
+							}
+						}
+						if good && len(boolEdges(bo, em.EmptyOnTrue)) > 0 {
+							found, at, where = true, in, f
+						}
+					})
+				}
+				desc := relPkg(p.PkgPath) + "." + n + "." + fld.Name()
+				if found {
+					c.ok("C16.R8", where, "decoded "+desc+" is checked against nil after decoding", at.Pos(),
+						"a null YAML value (directly, through an alias or a merged map) leaves the zero "+n+" without calling its UnmarshalYAML; the verification tree rejects the nil function on the decoded value")
+				} else {
+					c.bad("C16.R8", um, "decoded "+desc+" is checked against nil after decoding", um.Pos(),
+						"type "+n+" decodes itself and keeps a function in the unexported field "+fld.Name()+"; yaml.v3 leaves the zero value for a null node (also behind an alias or a merge) without calling UnmarshalYAML, and no VerifyConfig/verify compares the decoded field with nil: an accepted configuration then calls a nil function on the first record")
+				}
+			}
+		}
+	}
+	c.floor("C16.R8", "self-decoding types with a function field", nTypes, 1)
+}
